@@ -220,3 +220,9 @@ Definition eval_wi_case (k : wi_case) : list Z :=
     b2z (called k && ((0 <? rv_body (wi_direct k)) || negb (Z.eqb (rv_status (wi_direct k)) 200) || (0 <? q_blen (wi_req k)) || Z.eqb (wi_sflags k) 1));
     b2z (hhas (c_rid_hdr (wi_cfg k)) (q_hdrs (wi_req k)) || hhas (c_tr_hdr (wi_cfg k)) (q_hdrs (wi_req k)) || negb (called k));
     b2z ((2 <=? zlen (c_chain (wi_cfg k))) || match first_rejecter (c_chain (wi_cfg k)) (wi_req k) 0 with Some _ => true | None => false end) ].
+
+(* ---- idgen suite: concurrent generations through the real middleware (supporting evidence for uniqueness) ---- *)
+Record id_case := mkIdCase { id_total : Z; id_distinct : Z; id_wellformed : Z }.
+(* result vector: [diff (none: there is nothing to predict); mon_c16_unique; nt] *)
+Definition eval_id_case (k : id_case) : list Z :=
+  [ -1; b2z (Z.eqb (id_total k) (id_distinct k) && Z.eqb (id_wellformed k) (id_total k)); b2z (1000 <=? id_total k) ].
